@@ -19,6 +19,8 @@ NOT_YET = {}   # claimed in DESIGN.md but check not built yet: id -> reason
 CHECKS = {
  'C01': ('Seeded search over simulated sessions: every calculation of a random history (re-ordered, repeated, across restarts, with foreign RNG draws, injected solver failures and raising calls) must equal, bit for bit, the same calculation in a pristine interpreter; no operation may modify a shared detector/scatterer/theory object; the hologram/intensity/scaling-0/metadata identities are evaluated on every operation of those histories.', '5 C01',
          'history independence by pristine-node refinement + purity fingerprints, seeded histories with restart / RNG / solver faults'),
+ 'C10': ('Seeded search over simulated sessions supervised from outside the interpreter: T-matrix calculations with in-range, negative, beyond-range, huge and denormal Euler angles and sizes up to and past the convergence edge, interleaved with other solvers and restarts; a node that disappears during a scattering operation is the violation; every calculation must also equal the pristine-node result (COMMON-block state survives failed calls). Sphere-limit / symmetry / angle-reduction identities are evaluated on atomic calculation pairs inside the same histories.', '5 C10',
+         'process-lifetime supervision of forked interpreter nodes + pristine-node refinement over seeded histories'),
 }
 
 def main():
